@@ -262,10 +262,9 @@ func r7lfsrfsm(c *core.Ctx) {
 							seq = append(seq, fmt.Sprintf("b%d:clock", b.Index))
 						}
 					}
-					if n == pSnow+".lfsrKeystreamMode" {
+					if ck := snowClockFns(c); ck.ks != nil && n == core.FuncName(ck.ks) && (ck.ks != ck.init || ck.ksZeroArg) {
 						seq = append(seq, fmt.Sprintf("b%d:lfsr", b.Index))
-					}
-					if n == pSnow+".lfsrInitialisationMode" {
+					} else if ck.init != nil && n == core.FuncName(ck.init) {
 						seq = append(seq, fmt.Sprintf("b%d:lfsrinit", b.Index))
 					}
 				case *ssa.Store:
@@ -468,6 +467,9 @@ func r7init(c *core.Ctx) {
 		}
 	}
 	allowed := map[string]bool{"InitSnow3g": true, "clockFsm": true, "lfsrInitialisationMode": true, "lfsrKeystreamMode": true}
+	if ck := snowClockFns(c); ck.init != nil && ck.ks != nil {
+		allowed[ck.init.Name()], allowed[ck.ks.Name()] = true, true
+	}
 	// an unexported helper that only the init/clock functions call is part of them
 	callers := map[string]map[string]bool{}
 	for _, pp := range c.P.RepoPackages() {
